@@ -274,6 +274,17 @@ package tree
 //@   loop 2
 //@     assigns elems(n.br)
 
+// Node.Newick (property C01): node comments come from the child's list and branch comments from the branch's
+// list, each between brackets; stored values are printed in plain decimal shortest form; children are written
+// recursively with this node as parent into the same buffer
+//@ func (*tree.Node).Newick
+//@   flag noframe
+//@   requires n != nil && allocated(n) && newick != nil && INV12()
+//@   call (*bytes.Buffer).WriteString@L2 [a_node_comment_is_written_between_brackets_from_the_child_s_own_list] a0 == newick && (a1 == "[" || a1 == "]" || (exists k int :: 0 <= k && k < len(child.comment) && a1 == child.comment[k]))
+//@   call (*bytes.Buffer).WriteString@L3 [a_branch_comment_is_written_between_brackets_from_the_branch_s_own_list] a0 == newick && (a1 == "[" || a1 == "]" || (exists k int :: 0 <= k && k < len(n.br[i].comment) && a1 == n.br[i].comment[k]))
+//@   call strconv.FormatFloat [plain_decimal_shortest_representation_of_a_value_stored_on_the_branch] a1 == 102 && a2 == -1 && a3 == 64 && (a0 == n.br[i].support || a0 == n.br[i].pvalue || a0 == n.br[i].length)
+//@   call (*tree.Node).Newick [children_are_written_with_this_node_as_parent_into_the_same_buffer] a0 == child && a1 == n && a2 == newick && child != parent
+
 // ParentEdge: the unique branch of n that points into n
 //@ func (*tree.Node).ParentEdge
 //@   requires n != nil && (forall k int :: {n.br[k]} 0 <= k && k < len(n.br) ==> n.br[k] != nil)
